@@ -22,17 +22,16 @@ func CompileToGetCodeSet(ctx *RuntimeContext, typeptr uintptr) (*OpcodeSet, erro
 	}
 	index := (typeptr - typeAddr.BaseTypeAddr) >> typeAddr.AddrShift
 	setsMu.RLock()
-	if codeSet := cachedOpcodeSets[index]; codeSet != nil {
+	codeSet := cachedOpcodeSets[index]
+	setsMu.RUnlock()
+	if codeSet != nil {
 		filtered, err := getFilteredCodeSetIfNeeded(ctx, codeSet)
 		if err != nil {
-			setsMu.RUnlock()
 			return nil, err
 		}
-		setsMu.RUnlock()
 		verifCacheReturn("fast-hit", typeptr, index, codeSet)
 		return filtered, nil
 	}
-	setsMu.RUnlock()
 
 	verifCacheGate("miss", typeptr)
 	codeSet, err := newCompiler().compile(typeptr)
